@@ -18,6 +18,12 @@ P = {
          "refinement to abstract spec + exactness oracle; differential correspondence", "7 C05"),
  "C06": ("decision theorem: verdict = valid iff size ok and checksum equals the used digest case-insensitively, on both checksum paths; mismatch classes; refutation of the as-found case-sensitive path; correspondence over algorithms x spellings x checksum case x size x prior state",
          "decision logic stated outright; differential correspondence", "7 C06"),
+ "C09": ("static effect discipline proved for every call and every response sequence (Shape): an object is published only at the address of its own digest; that invariant is preserved by every single effect, hence holds in the final state, at every crash prefix, in every intermediate state, under every fault plan and over whole histories; objects / documents / pid references change only by whole-file steps; the real call's intermediate directory states (snapshot after every mutating primitive) are compared with the model's and checked directly (every object hashes to its name, documents complete, pid references complete); in-place writes flagged",
+         "invariant over all program trees (AllEv) + per-effect preservation, lifted to run / crash prefix / intermediate states; intermediate-state correspondence", "7 C09"),
+ "C10": ("partial: for every call on pid p, at every crash point and under every fault plan, every other pid (distinct hash) keeps its pid reference and all its documents; pid-less calls touch none; objects stay well addressed. Not proved for the model: membership of other pids in shared lists and the delete-then-store recovery; both are checked on the real code at every crash point of every scripted scenario (reopened store on the snapshot directory)",
+         "frame invariant over all program trees (AllEv) lifted to every crash prefix; crash-point sweep with recovery on the real code", "7 C10, 9"),
+ "C13": ("partial: the fault plan is part of the one interpreter, so the frame (other pids untouched) and addressing theorems hold under every plan; lemmas on how plans fire (one-off fires once, one-off rename absorbed by the copy fallback); the full statement is refuted for the model by a decide-checked witness (persistent read failure during tag_object leaves the pid half-bound, retry rejected) = known finding K4, replayed on the real code each run; model and code are run under the same plan at every fault site (once / persistent, EIO / ENOSPC / EACCES) and agree on result, state, locks and retry",
+         "invariants over all program trees under the fault semantics + refutation witness; per-site fault-injection correspondence", "7 C13, 9"),
  "C11": ("spec-level theorems: store/retrieve round trip, default-namespace equivalence, isolation of other (pid, format) pairs, delete-one / delete-all / delete_object lifetimes, key injectivity under NoColl incl. concatenation-colliding pairs; correspondence on metadata histories",
          "refinement to abstract spec (map laws); differential correspondence", "7 C11"),
  "C17": ("spec-level theorem: every error other than the four 'late' classes leaves the state unchanged, read-only calls always do; decision tables for the argument checkers; correspondence on a grammar of invalid arguments with byte-exact before/after snapshots",
